@@ -156,6 +156,9 @@ func (fx *FX) runTop() (errmsg string) {
 		for _, cl := range c.ClosureInv {
 			fx.assume(True, fx.evalBool(env, cl.Expr))
 		}
+		for _, fsm := range c.FrameSeams {
+			fx.usedAssumed["frame seam of "+c.Kind+" "+c.Name+": writes "+fsm[0]+", which the protocol it implements excludes; assumed: "+fsm[1]] = true
+		}
 		// vacuity guard: the preconditions are satisfiable
 		ob := &Obligation{Name: fx.name + ".cover(requires)", Kind: "cover", Func: fx.name, Clause: "preconditions are satisfiable", Expect: "sat", Props: c.Props}
 		fx.items = append(fx.items, item{kind: "oblig", ob: ob, reach: True, goal: False})
